@@ -419,6 +419,11 @@ def run(ctx):
                necessary="a default rewritten on its way into the instance node (quotes stripped, trimmed, unescaped) is not the text the author typed")
     static_default_verbatim(ctx, r13, "C06.R13")
     rules.append(r13)
+    from .c09 import sparse_extra_columns_obligation
+    r14 = Rule("C06", "C06.R14", "extra choice columns reach their items whichever rows have them", floor=1,
+               necessary="an extra-column cell that is not emitted is author text lost from the XForm")
+    sparse_extra_columns_obligation(ctx, r14, "C06.R14")
+    rules.append(r14)
     return rules
 
 
